@@ -841,3 +841,123 @@ func assignTok(hasChains bool) token.Token {
 //kvc:loop (*InjectorProviderCallStmt).Stmt "for _, reference := range stmt.Provider.ReferencedImports"
 func inv_Stmt_imports() {
 }
+
+// ---------------------------------------------------------------------------
+// Field reads, goroutine bodies, continuations (C01, C04, C06, C08)
+// ---------------------------------------------------------------------------
+
+// isReturnOf: `return results...`.
+func isReturnOf(s ast.Stmt, results []ast.Expr) bool {
+	return vs.TypeIs[*ast.ReturnStmt](s) && vs.As[*ast.ReturnStmt](s) != nil && vs.SameSlice(vs.As[*ast.ReturnStmt](s).Results, results)
+}
+
+func isReturnOfOne(s ast.Stmt, e ast.Expr) bool {
+	return vs.TypeIs[*ast.ReturnStmt](s) && vs.As[*ast.ReturnStmt](s) != nil && len(vs.As[*ast.ReturnStmt](s).Results) == 1 &&
+		vs.As[*ast.ReturnStmt](s).Results[0] == e
+}
+
+// The error continuation inside a goroutine: `return <err>` - the error goes to the errgroup.
+//
+//kvc:contract chainReturnErrStmts
+func contract_chainReturnErrStmts(errExpr ast.Expr) (result []ast.Stmt) {
+	vs.Ensures("returns_exactly_the_error", len(result) == 1 && isReturnOfOne(result[0], errExpr))
+	vs.Allocates()
+	return
+}
+
+// isFieldRead: `<lhs> <tok> <structVar>.<field>`.
+func isFieldRead(s ast.Stmt, tok token.Token, field string) bool {
+	return vs.TypeIs[*ast.AssignStmt](s) && vs.As[*ast.AssignStmt](s) != nil && vs.As[*ast.AssignStmt](s).Tok == tok &&
+		len(vs.As[*ast.AssignStmt](s).Lhs) == 1 && len(vs.As[*ast.AssignStmt](s).Rhs) == 1 &&
+		vs.TypeIs[*ast.SelectorExpr](vs.As[*ast.AssignStmt](s).Rhs[0]) && vs.As[*ast.SelectorExpr](vs.As[*ast.AssignStmt](s).Rhs[0]) != nil &&
+		vs.As[*ast.SelectorExpr](vs.As[*ast.AssignStmt](s).Rhs[0]).Sel != nil && vs.As[*ast.SelectorExpr](vs.As[*ast.AssignStmt](s).Rhs[0]).Sel.Name == field
+}
+
+func fieldReadTarget(s ast.Stmt) ast.Expr { return vs.As[*ast.AssignStmt](s).Lhs[0] }
+func fieldReadSource(s ast.Stmt) ast.Expr {
+	return vs.As[*ast.SelectorExpr](vs.As[*ast.AssignStmt](s).Rhs[0]).X
+}
+
+func fieldAccessWellFormed(stmt *InjectorFieldAccessStmt) bool {
+	return stmt != nil && vs.IsAllocated(stmt.StructParam) && vs.IsAllocated(stmt.ReturnParam) && stmt.Field != nil &&
+		len(stmt.StructParam.types) >= 1 && len(stmt.ReturnParam.types) >= 1 && stmt.StructParam.refCounter > 0 &&
+		(!stmt.ReturnParam.withChannel || stmt.ReturnParam.refCounter > 0)
+}
+
+//kvc:contract (*InjectorFieldAccessStmt).Stmt
+func contract_FieldAccessStmt_Stmt(stmt *InjectorFieldAccessStmt, varPool *VarPool, injector *Injector, returnErrStmts func(ast.Expr) []ast.Stmt) (result []ast.Stmt, imports []string) {
+	vs.Requires(fieldAccessWellFormed(stmt) && poolInv(varPool) && injector != nil)
+	vs.Ensures("step_length", len(result) == 1+b2i(stmt.ReturnParam.withChannel))
+	// C02: the field of the struct value is copied into the variable of the field's type
+	vs.Ensures("reads_the_declared_field", (isFieldRead(result[0], token.ASSIGN, stmt.Field.Name) || isFieldRead(result[0], token.DEFINE, stmt.Field.Name)) &&
+		namesVarOrBlank(fieldReadTarget(result[0]), stmt.ReturnParam) && namesVarOf(fieldReadSource(result[0]), stmt.StructParam))
+	// C03: the completion signal follows the read
+	vs.Ensures("close_after_read", vs.Implies(stmt.ReturnParam.withChannel,
+		vs.ExistsPtr(func(id *ast.Ident) bool {
+			return namesChannelOf(ast.Expr(id), stmt.ReturnParam) && isCloseOf(result[1], ast.Expr(id))
+		})))
+	// C04: `=` exactly when the variable was pre-declared, i.e. when the injector has goroutines
+	vs.Ensures("assign_iff_predeclared", isFieldRead(result[0], assignTok(injectorHasChains(injector)), stmt.Field.Name))
+	vs.Ensures("names_stable", namesAreStable())
+	vs.Ensures("pool_inv", poolInv(varPool))
+	vs.Modifies(vs.FieldOfAll(stmt.ReturnParam.name), vs.FieldOfAll(stmt.ReturnParam.channelName), varPool.vars)
+	vs.Allocates()
+	return
+}
+
+// isGoCall: `eg.Go(func() error { body... })`.
+func isGoCall(s ast.Stmt) bool {
+	return vs.TypeIs[*ast.ExprStmt](s) && vs.As[*ast.ExprStmt](s) != nil &&
+		vs.TypeIs[*ast.CallExpr](vs.As[*ast.ExprStmt](s).X) && vs.As[*ast.CallExpr](vs.As[*ast.ExprStmt](s).X) != nil &&
+		len(vs.As[*ast.CallExpr](vs.As[*ast.ExprStmt](s).X).Args) == 1 &&
+		vs.TypeIs[*ast.SelectorExpr](vs.As[*ast.CallExpr](vs.As[*ast.ExprStmt](s).X).Fun) &&
+		vs.As[*ast.SelectorExpr](vs.As[*ast.CallExpr](vs.As[*ast.ExprStmt](s).X).Fun) != nil &&
+		isIdentNamed(vs.As[*ast.SelectorExpr](vs.As[*ast.CallExpr](vs.As[*ast.ExprStmt](s).X).Fun).X, "eg") &&
+		vs.As[*ast.SelectorExpr](vs.As[*ast.CallExpr](vs.As[*ast.ExprStmt](s).X).Fun).Sel != nil &&
+		vs.As[*ast.SelectorExpr](vs.As[*ast.CallExpr](vs.As[*ast.ExprStmt](s).X).Fun).Sel.Name == "Go" &&
+		vs.TypeIs[*ast.FuncLit](vs.As[*ast.CallExpr](vs.As[*ast.ExprStmt](s).X).Args[0]) &&
+		vs.As[*ast.FuncLit](vs.As[*ast.CallExpr](vs.As[*ast.ExprStmt](s).X).Args[0]) != nil &&
+		vs.As[*ast.FuncLit](vs.As[*ast.CallExpr](vs.As[*ast.ExprStmt](s).X).Args[0]).Body != nil
+}
+
+func goBody(s ast.Stmt) []ast.Stmt {
+	return vs.As[*ast.FuncLit](vs.As[*ast.CallExpr](vs.As[*ast.ExprStmt](s).X).Args[0]).Body.List
+}
+
+// providerStepReady: what (*InjectorProviderCallStmt).Stmt needs from the statement itself.
+func providerStepReady(ps *InjectorProviderCallStmt) bool {
+	return callStmtWellFormed(ps) && returnsDistinct(ps) && returnsReferenced(ps) && ps.Provider != nil && importsNonNil(ps.Provider.ReferencedImports)
+}
+
+// threadStmtReady: a statement that may appear in a thread (goroutine body or main flow).
+func threadStmtReady(s InjectorStmt) bool {
+	return (vs.TypeIs[*InjectorProviderCallStmt](s) && vs.IsAllocated(vs.As[*InjectorProviderCallStmt](s)) && providerStepReady(vs.As[*InjectorProviderCallStmt](s))) ||
+		(vs.TypeIs[*InjectorFieldAccessStmt](s) && vs.IsAllocated(vs.As[*InjectorFieldAccessStmt](s)) && fieldAccessWellFormed(vs.As[*InjectorFieldAccessStmt](s)))
+}
+
+//kvc:contract (*InjectorChainStmt).Stmt
+func contract_ChainStmt_Stmt(stmt *InjectorChainStmt, varPool *VarPool, injector *Injector, cont func(ast.Expr) []ast.Stmt) (result []ast.Stmt, imports []string) {
+	vs.Requires(stmt != nil && poolInv(varPool) && injectorArgsNonNil(injector) &&
+		vs.Forall(len(stmt.Statements), func(i int) bool { return threadStmtReady(stmt.Statements[i]) }))
+	// C01/C03: one pool becomes exactly one goroutine handed to the errgroup ...
+	vs.Ensures("one_goroutine", len(result) == 1 && isGoCall(result[0]))
+	// ... whose body ends by reporting success to the group
+	vs.Ensures("body_ends_with_return_nil", len(goBody(result[0])) >= 1 &&
+		vs.ExistsPtr(func(id *ast.Ident) bool {
+			return id.Name == "nil" && isReturnOfOne(goBody(result[0])[len(goBody(result[0]))-1], ast.Expr(id))
+		}))
+	vs.Ensures("names_stable", namesAreStable())
+	vs.Ensures("pool_inv", poolInv(varPool))
+	vs.Modifies(vs.FieldOfAll(injector.Args[0].Param.name), vs.FieldOfAll(injector.Args[0].Param.channelName),
+		vs.FieldOfAll(injector.Args[0].Param.ReferencedImports[""].IsUsed), varPool.vars,
+		gWaitChans, gCloseChans, gStepArgs, gStepLhs, gStepRhs)
+	vs.Allocates()
+	return
+}
+
+//kvc:loop (*InjectorChainStmt).Stmt "for _, chainStmt := range stmt.Statements"
+func inv_ChainStmt_Stmt(stmt *InjectorChainStmt, varPool *VarPool, injector *Injector) {
+	vs.Invariant("pool_inv", poolInv(varPool))
+	vs.Invariant("names_stable", namesAreStable())
+	vs.Invariant("still_ready", injectorArgsNonNil(injector) && vs.Forall(len(stmt.Statements), func(i int) bool { return threadStmtReady(stmt.Statements[i]) }))
+}
